@@ -278,3 +278,33 @@ def witness_K6_nan_fixed_value():
     from d42 import schema, validate
     s = schema.float(float("nan"))
     return validate(s, s.props.value).has_errors() and not (s == s)
+
+
+# ---------------------------------------------------------------------------------------------
+# C15: K8
+
+def class_K8_universal_at_edge(v):
+    from .props.C15 import universal_at_edge
+    for key in ("py_a", "py_b"):
+        s = v.get(key)
+        if s is not None and universal_at_edge(s):
+            return True
+    return False
+
+
+def witness_K8_universal_at_edge():
+    from d42 import schema, validate
+    a, b = schema.list([schema.any, ...]), schema.list([schema.any, schema.any])
+    return (a == b) and (validate(a, [1]).has_errors() != validate(b, [1]).has_errors())
+
+
+# ---------------------------------------------------------------------------------------------
+# C18: K9
+
+def class_K9_separator_overlap(v):
+    return bool(v.get("sep_unsafe")) and len(v.get("separator", "")) > 1
+
+
+def witness_K9_separator_overlap():
+    from d42.utils import rollout
+    return rollout({"x:::y": 1}, separator="::") != {"x:": {"y": 1}}
